@@ -50,3 +50,13 @@ func VerifShiftLastUpdateFinish(d time.Duration, checkers ...*CRLRevocationCheck
 		}
 	}
 }
+
+// VerifShiftLastUpdateFinishUnlocked is VerifShiftLastUpdateFinish without taking the refresh mutex: for use while a
+// refresh pass is parked at a hook inside the mutex (the pass does not touch the timestamps while it is parked).
+func VerifShiftLastUpdateFinishUnlocked(d time.Duration, checkers ...*CRLRevocationChecker) {
+	for _, c := range checkers {
+		if !c.lastCrlUpdateFinishTime.IsZero() {
+			c.lastCrlUpdateFinishTime = c.lastCrlUpdateFinishTime.Add(-d)
+		}
+	}
+}
